@@ -55,7 +55,14 @@ func vrtArbitraryQueue() (*Ackqueue, []vrtEnt) {
 			e.ack = vrtBytesN("ackbuf", 2)
 		}
 		idx := int64((head + i) & (S - 1))
-		aq.ring[idx] = AckMsg{Mtype: message.Type(e.typ), State: message.Type(e.state), Pktid: e.id, Msgbuf: e.msg, Ackbuf: e.ack}
+		// the queue's own buffers (with spare capacity, as a reused allocation would have);
+		// the model keeps its own copies
+		qmsg := append(make([]byte, 0, 24), e.msg...)
+		var qack []byte
+		if e.state != 0 {
+			qack = append(make([]byte, 0, 8), e.ack...)
+		}
+		aq.ring[idx] = AckMsg{Mtype: message.Type(e.typ), State: message.Type(e.state), Pktid: e.id, Msgbuf: qmsg, Ackbuf: qack}
 		aq.emap[e.id] = idx
 		abs = append(abs, e)
 	}
